@@ -34,6 +34,9 @@ func replayFile(path string) int {
 		fmt.Printf("round %d: mode=%s seg=%d history=%v\n", round, d.Mode, d.Seg, d.Ops)
 		if d.Mode == "crash" {
 			fmt.Printf("  crash point %d (%s), image %s\n", d.Point, d.PointAt, d.Image)
+			if d.G2Case != "" {
+				fmt.Printf("  second generation: %s\n", d.G2Case)
+			}
 		} else {
 			fmt.Printf("  flip %s offset %d mask 0x%02x\n", d.File, d.Off, d.Mask)
 		}
